@@ -326,3 +326,192 @@ def apply_desugaring(doc, rounds=3):
             break
         pristine = {p: copy.deepcopy(b) for p, b in closures.items()}
     return done
+
+
+# ---------------------------------------------------------------------------------------------------------------------------------------
+# loops over a literal array are the sequence of their iterations
+
+
+def _succs(t):
+    k = t['k']
+    out = []
+    if k in ('goto', 'drop', 'call', 'assert'):
+        if t.get('target') is not None:
+            out.append(t['target'])
+    elif k == 'switch':
+        out = [x for _, x in t['targets']] + [t['otherwise']]
+    elif k == 'other':
+        out = list(t.get('succ', []))
+    return [x for x in out if isinstance(x, int)]
+
+
+def _retarget(t, f):
+    t = dict(t)
+    for key in ('target', 'otherwise'):
+        if isinstance(t.get(key), int):
+            t[key] = f(t[key])
+    if t['k'] == 'switch':
+        t['targets'] = [[v, f(x)] for v, x in t['targets']]
+    if t['k'] == 'other':
+        t['succ'] = [f(x) for x in t.get('succ', [])]
+    return t
+
+
+def _defs_of(b, local):
+    out = []
+    for i, blk in enumerate(b['blocks']):
+        for st in blk['stmts']:
+            if st['k'] == 'assign' and st['place']['local'] == local and not st['place']['proj']:
+                out.append((i, st['rv']))
+        t = blk['term']
+        if t['k'] == 'call' and t['dest']['local'] == local and not t['dest']['proj']:
+            out.append((i, t))
+    return out
+
+
+def _literal_array(b, op, depth=0):
+    """operands of the array literal an operand denotes (through plain moves and into_iter / iter), or None"""
+    if depth > 5 or op['k'] not in ('move', 'copy') or op['place']['proj']:
+        return None
+    defs = _defs_of(b, op['place']['local'])
+    if len(defs) != 1:
+        return None
+    _, d = defs[0]
+    if d.get('k') == 'agg' and d['agg']['k'] == 'array':
+        return d['ops']
+    if d.get('k') == 'use':
+        return _literal_array(b, d['op'], depth + 1)
+    if d.get('k') == 'ref' and not d['place']['proj']:
+        return _literal_array(b, {'k': 'copy', 'place': d['place']}, depth + 1)
+    if d.get('k') == 'call' and d['func'].get('name') in ('into_iter',) and len(d['args']) == 1 and '; ' in (d['func'].get('self_ty') or d['func'].get('impl_self') or ''):
+        return _literal_array(b, d['args'][0], depth + 1)
+    return None
+
+
+def unroll_literal_loops(doc, max_len=4):
+    """`for x in [a, b] { body }` (also after a for_each / helper was turned into a loop): body[x := a]; body[x := b].  Only loops whose
+    header is `next()` on an iterator over an array literal of at most max_len elements, taken by value.  Returns [(body path, n)]."""
+    done = []
+    for b in doc['bodies']:
+        for _round in range(4):
+            hit = None
+            for h, blk in enumerate(b['blocks']):
+                t = blk['term']
+                if t['k'] != 'call' or blk['cleanup'] or t['func'].get('name') != 'next' or len(t['args']) != 1 or t['target'] is None or t['dest']['proj']:
+                    continue
+                a0 = t['args'][0]
+                if a0['k'] not in ('move', 'copy') or a0['place']['proj']:
+                    continue
+                # `_r = &mut ITER` in the header
+                refs = [st['rv'] for st in blk['stmts'] if st['k'] == 'assign' and st['place']['local'] == a0['place']['local'] and not st['place']['proj']]
+                if len(refs) != 1 or refs[0]['k'] != 'ref' or refs[0]['place']['proj']:
+                    continue
+                elems = _literal_array(b, {'k': 'copy', 'place': refs[0]['place']})
+                if elems is None or not (1 <= len(elems) <= max_len):
+                    continue
+                sw = b['blocks'][t['target']]
+                if sw['term']['k'] != 'switch' or len(sw['term']['targets']) != 2:
+                    continue
+                tg = dict((v, x) for v, x in sw['term']['targets'])
+                if 0 not in tg or 1 not in tg:
+                    continue
+                hit = (h, t['target'], tg[1], tg[0], t['dest']['local'], elems, t['span'])
+                break
+            if hit is None:
+                break
+            H, S, B0, EXIT, ITEM, elems, span = hit
+            # loop body: blocks reachable from B0 that can reach H again, plus blocks on the way that leave the loop are NOT copied
+            fwd = set()
+            st_ = [B0]
+            while st_:
+                n = st_.pop()
+                if n in fwd or n in (H, S):
+                    continue
+                fwd.add(n)
+                st_.extend(_succs(b['blocks'][n]['term']))
+            preds = {}
+            for i, blk in enumerate(b['blocks']):
+                for x in _succs(blk['term']):
+                    preds.setdefault(x, []).append(i)
+            back = set()
+            st_ = [p_ for p_ in preds.get(H, []) if p_ in fwd]
+            while st_:
+                n = st_.pop()
+                if n in back or n not in fwd:
+                    continue
+                back.add(n)
+                st_.extend(preds.get(n, []))
+            L = back   # the natural loop without its header and the switch
+            if not L or B0 not in L or any(b['blocks'][n]['cleanup'] for n in L):
+                break
+            # locals whose every definition lies inside the loop are private to an iteration
+            private = set()
+            inside = L | {H, S}
+            defined = {}
+            for i, blk in enumerate(b['blocks']):
+                for st in blk['stmts']:
+                    if st['k'] == 'assign' and not st['place']['proj']:
+                        defined.setdefault(st['place']['local'], set()).add(i)
+                t = blk['term']
+                if t['k'] == 'call' and not t['dest']['proj']:
+                    defined.setdefault(t['dest']['local'], set()).add(i)
+            for l, where in defined.items():
+                if where <= inside and l >= 1 + b['arg_count']:
+                    private.add(l)
+            entries = []
+            order = sorted(L)
+            for k, elem in enumerate(elems):
+                base = len(b['blocks'])
+                bmap = {n: base + 1 + j for j, n in enumerate(order)}
+                lmap = {}
+                for l in sorted(private):
+                    lmap[l] = len(b['locals'])
+                    b['locals'].append(dict(b['locals'][l], i=lmap[l]))
+                lm = lambda l, lmap=lmap: lmap.get(l, l)
+                item = lm(ITEM)
+                entry = {'cleanup': False, 'stmts': [{'k': 'assign', 'place': _pl(item), 'span': span, 'exp': True,
+                                                      'rv': {'k': 'agg', 'agg': {'k': 'adt', 'path': 'std::option::Option', 'variant': 'Some', 'variant_idx': 1, 'fields': ['0']}, 'ops': [elem]}}],
+                         'term': {'k': 'goto', 'target': bmap[B0], 'span': span, 'exp': True}}
+                b['blocks'].append(entry)
+                entries.append(base)
+                for n in order:
+                    blk = b['blocks'][n]
+                    nb = {'cleanup': False, 'stmts': [], 'term': None}
+                    for st in blk['stmts']:
+                        s2 = dict(st)
+                        if 'place' in st:
+                            s2['place'] = M._rename_place(st['place'], lm)
+                        if 'rv' in st:
+                            s2['rv'] = M._rename_rv(st['rv'], lm)
+                        nb['stmts'].append(s2)
+                    tt = dict(blk['term'])
+                    if tt['k'] == 'switch':
+                        tt['discr'] = M._rename_op(tt['discr'], lm)
+                    if tt['k'] == 'call':
+                        tt['args'] = [M._rename_op(a, lm) for a in tt['args']]
+                        tt['dest'] = M._rename_place(tt['dest'], lm)
+                        if 'indirect' in tt['func']:
+                            tt['func'] = dict(tt['func'], indirect=M._rename_op(tt['func']['indirect'], lm))
+                    if tt['k'] == 'drop':
+                        tt['place'] = M._rename_place(tt['place'], lm)
+                    if tt['k'] == 'assert':
+                        tt['cond'] = M._rename_op(tt['cond'], lm)
+                    nb['term'] = ('NEXT', tt, bmap)
+                    b['blocks'].append(nb)
+            entries.append(EXIT)
+            # wire the copies: an edge back to the header goes on to the next iteration
+            for k in range(len(elems)):
+                base = entries[k]
+                for j in range(len(order)):
+                    nb = b['blocks'][base + 1 + j]
+                    _, tt, bmap = nb['term']
+                    nxt = entries[k + 1]
+                    nb['term'] = _retarget(tt, lambda x, bmap=bmap, nxt=nxt: nxt if x == H else bmap.get(x, x))
+            # enter the first copy instead of the header
+            for i, blk in enumerate(b['blocks']):
+                if i in L or i in (H, S) or isinstance(blk['term'], tuple):
+                    continue
+                if H in _succs(blk['term']) and i < entries[0]:
+                    blk['term'] = _retarget(blk['term'], lambda x: entries[0] if x == H else x)
+            done.append((b['path'], len(elems)))
+    return done
